@@ -7,7 +7,7 @@
    Conventions: a file is the byte string read from it; numbers that the code
    obtains with float(token)/CLOCK_TICKS are exact rationals (ticks # clk);
    CLOCK_TICKS, the boot time and the /dev listing are arguments. *)
-From PV Require Export Base.Dec Gen.C06_Tables.
+From PV Require Export Base.Dec Gen.C06_Tables C06.Codec.
 From Coq Require Export QArith.
 Open Scope Z_scope.
 
@@ -73,6 +73,12 @@ Definition parse_stat_file (data : bytes) : outcome pstat :=
 (* --------------------------------------------------------- the accessors *)
 Definition name (data : bytes) : outcome bytes :=
   do st <- parse_stat_file data; Val (ps_name st).
+
+(* Process.name() returns decode(name) = name.decode(ENCODING, ENCODING_ERRS) with
+   ENCODING = sys.getfilesystemencoding() and 'surrogateescape': the str, as code points,
+   under the encoding the interpreter started with *)
+Definition name_str (e : fsenc) (data : bytes) : outcome (list Z) :=
+  do n <- name data; Val (fs_decode e n).
 
 Definition ppid (data : bytes) : outcome Z :=
   do st <- parse_stat_file data; py_int (ps_ppid st).
